@@ -1,0 +1,10 @@
+//go:build verif
+
+package jobconfigcontroller
+
+import (
+	"k8s.io/client-go/util/workqueue"
+)
+
+// VerifSetQueue injects a deterministic workqueue (verification harness in /verif).
+func (c *Context) VerifSetQueue(q workqueue.RateLimitingInterface) { c.queue = q }
